@@ -854,11 +854,13 @@ def gen_pool(rng, m, k=None):
         if 0.5 <= fk <= 400:
             cands += [fk * 0.85, fk * 1.2]
             probes.append('skin_asymptote_flip')
-    wide = rng.random() < 0.1
+    wide = rng.random() < 0.12
     while len(cands) < k:
         mult = rng.choice([0.5, 0.7, 0.9, 1.0, 1.1, 1.3, 1.5, 2.0])
         if wide:
-            mult = rng.choice([0.02, 0.1, 0.25, 1.0, 4.0, 8.0])
+            # electrically tiny ... large structures (badly conditioned
+            # matrices, guards and fall-backs live at the extremes)
+            mult = rng.choice([1e-4, 1e-3, 5e-3, 0.02, 0.1, 0.25, 1.0, 4.0, 8.0])
         f = base * mult * rng.uniform(0.97, 1.03)
         f = round(f, rng.choice([1, 2, 3, 6]))
         if f <= 0:
@@ -1333,7 +1335,7 @@ def gen_plan(run_seed, tier='quick', env=None, kinds=None, shape=None):
     perturbed = rng.random() < 0.7
     maxops = 24 if tier == 'quick' else 48
     if shape is None:
-        shape = rng.choice(['api', 'api', 'api', 'cli', 'cli', 'api+api', 'api+cli', 'api+api+cli'])
+        shape = rng.choice(['api', 'api', 'api', 'cli', 'cli', 'api+api', 'api+cli', 'api+api+cli', 'direct'])
     tasks = []
     if shape == 'api+api' and env is None and rng.random() < 0.3:
         shape = 'direct+direct'
@@ -1537,6 +1539,10 @@ def gen_direct_task(rng, ground='shared_ideal', maxops=20):
     return dict(kind='api', builder='direct',
                 direct=dict(wires=wires, ground=ground, sources=sources, loads=loads, skin=skin,
                             transforms=transforms, share_args=rng.random() < 0.8, xloads=xloads,
+                            rejects=[[rng.choice(['insul_small', 'skin_twice', 'src_range', 'load_range',
+                                                  'excitation_both', 'medium_bad']),
+                                      rng.choice(['before', 'after']), rng.randrange(len(wires))]
+                                     for _ in range(rng.choice([0, 1, 1, 2]))],
                             timing=rng.random() < 0.15, gauge=rng.choice([None, None, None, 12, 18])),
                 argv=[], pool=pool, fars=fars, nears=nears, ops=ops, template='direct_' + t,
                 env='ideal' if ground else 'free', features=feats, probes=probes,
